@@ -1082,6 +1082,42 @@ func (r *rewriter) collect(n ast.Node, write bool, out *[]fieldAccess) {
 				}
 			}
 		}
+		// a pointer to one of the module's structs handed to code that is not instrumented (an RPC stub, an encoder,
+		// a dynamic callee): that code may read every field of the pointee; the addresses are computed under recover (nil)
+		if !r.calleeInstrumented(x) {
+			for _, a := range x.Args {
+				t := r.typeOf(a)
+				if t == nil || hasCall(a) {
+					continue
+				}
+				pt, isPtr := t.Underlying().(*types.Pointer)
+				if !isPtr {
+					continue
+				}
+				named, isNamed := pt.Elem().(*types.Named)
+				if !isNamed || !r.ownPkg(named.Obj().Pkg()) {
+					continue
+				}
+				st, isStruct := named.Underlying().(*types.Struct)
+				if !isStruct {
+					continue
+				}
+				if _, isAddr := a.(*ast.UnaryExpr); isAddr {
+					continue // &x of a local or a composite literal: the fields are judged where they are accessed
+				}
+				tn := named.Obj().Pkg().Name() + "." + named.Obj().Name()
+				for i := 0; i < st.NumFields(); i++ {
+					f := st.Field(i)
+					if syncType(f.Type()) {
+						continue
+					}
+					if !f.Exported() && f.Pkg() != r.pkg.Types {
+						continue
+					}
+					*out = append(*out, fieldAccess{expr: &ast.SelectorExpr{X: a, Sel: ast.NewIdent(f.Name())}, write: false, loc: tn + "." + f.Name() + "(handed to uninstrumented code)", kind: 1})
+				}
+			}
+		}
 		// value-receiver method called through a pointer / addressable struct copies the whole struct
 		if se, ok := x.Fun.(*ast.SelectorExpr); ok {
 			if sel, ok := r.info.Selections[se]; ok && sel.Kind() == types.MethodVal {
